@@ -577,6 +577,44 @@ func arithLayers(j judge, tier string) []Layer {
 			},
 		})
 	}
+	// L8: large operands through the public API (Karatsuba multiplication, recursive division)
+	{
+		vals := largeOperands(thorough)
+		layers = append(layers, Layer{
+			Name:   "L8-large-operands",
+			Units:  len(vals),
+			Bounds: fmt.Sprintf("Mul(x,y), Quo(x,y), Quo(x·y+r, y) (r in {0,1}) and Quo(short, y) over %d operands of 31..130 words (200 thorough): uniform edge words with top/bottom exceptions, 10^A−1 (all nines), 10^B+1, sparse '1 0…0 3 0…0 1' vectors, and 1–2-word partners; precision in {20, half, full, full+1 of the longer operand}; modes Even/ToZero/AwayFromZero", len(vals)),
+			Run: func(c *Ctx, u int) {
+				xo := vals[u]
+				x := xo.Build()
+				modes := []uint8{ToNearestEven, ToZero, AwayFromZero}
+				for yi, yo := range vals {
+					if c.Done() {
+						return
+					}
+					// all pairs with the short partners, every 3rd pair among the long ones
+					if len(xo.Words) > 2 && len(yo.Words) > 2 && (u+yi)%3 != 0 {
+						continue
+					}
+					y := yo.Build()
+					L := len(xo.Words)
+					if len(yo.Words) > L {
+						L = len(yo.Words)
+					}
+					precs := []uint32{20, uint32(19 * L / 2), uint32(19 * L), uint32(19*L + 1)}
+					binSweep(c, j, []int{opMul, opQuo}, xo, yo, x, y, precs, modes)
+					// exact and nearly exact quotients of the product
+					if len(xo.Words)+len(yo.Words) <= 140 {
+						pi := new(big.Int).Mul(xo.V.Coef, yo.V.Coef)
+						for _, r := range []int64{0, 1} {
+							po := mkCoef(xo.Neg != yo.Neg, new(big.Int).Add(pi, big.NewInt(r)), xo.V.E10+yo.V.E10, uint32(ndigits(pi))+2, 0)
+							binSweep(c, j, []int{opQuo}, po, yo, po.Build(), y, []uint32{uint32(19 * len(xo.Words)), uint32(19*len(xo.Words) + 1), 20}, modes)
+						}
+					}
+				}
+			},
+		})
+	}
 	// L5: range ends
 	{
 		type pair struct {
@@ -699,7 +737,56 @@ func init() {
 		Layers: func(tier string) []Layer {
 			fmaAccOnly = true
 			ls := append(arithLayers(judgeAcc, tier), fmaLayers(tier)...)
+			ls = append(ls, aliasLayers(tier)...) // accuracy under aliasing and on receivers whose previous accuracy was not Exact
 			return append(ls, setterAccLayers(tier)...)
 		},
 	})
+}
+
+// largeOperands: operands of 31..130 (200) words plus short partners, shared by C01/C02 (L8) and C03 (F7).
+func largeOperands(thorough bool) []*Opnd {
+	var out []*Opnd
+	lens := []int{31, 33, 64, 100, 130}
+	if thorough {
+		lens = []int{30, 31, 33, 62, 64, 99, 100, 101, 130, 200}
+	}
+	uni := func(n int, w, top, bot uint64) []uint64 {
+		v := make([]uint64, n)
+		for i := range v {
+			v[i] = w
+		}
+		v[n-1], v[0] = top, bot
+		return v
+	}
+	k := 0
+	for _, n := range lens {
+		vs := [][]uint64{
+			uni(n, BW-1, BW-1, BW-1), // 10^(19n) − 1
+			uni(n, 0, 1, 1),          // 10^(19(n−1)) + 1
+			uni(n, 0, BW/10, 1),      // 10^(19n−1) + 1
+			uni(n, BW-1, BW/2, 1),
+			uni(n, 1, BW-1, 0),
+			uni(n, BW/2, BW-2, BW-1),
+			uni(n, BW-2, 1, BW/2),
+		}
+		// sparse: 1 0…0 3 0…0 1 and the upper half nines, lower half zeros + 3 + 1
+		sp := uni(n, 0, 1, 1)
+		sp[n/2] = 3
+		vs = append(vs, sp)
+		hn := uni(n, 0, BW-1, 1)
+		for i := n / 2; i < n; i++ {
+			hn[i] = BW - 1
+		}
+		hn[n/2-1] = 3
+		vs = append(vs, hn)
+		for _, v := range vs {
+			k++
+			out = append(out, mkWords(k%3 == 0, v, int64(k%7)-3, 0, 0))
+		}
+	}
+	for _, v := range [][]uint64{{5}, {BW - 1}, {1, BW / 10}, {BW - 1, BW - 1}, {3, 7 * (BW / 10)}} {
+		k++
+		out = append(out, mkWords(k%2 == 0, v, 2, 0, 0))
+	}
+	return out
 }
